@@ -23,7 +23,7 @@ RULE = ("NP2.4 recordings whose first rows contain all 65536 int16 values (or al
         "(gain, assignment mode, #shanks, window, ns, options)")
 ASSUMPTIONS = ["byte comparison uses harness code (numpy.fromfile / mtscomp), never the repository's reader",
                "metadata equality is judged on the parsed dictionaries (tilde prefixes are not part of a key)"]
-REQUIRED = {"shank_files_compared": 8, "reconstructions": 3, "meta_fields_compared": 100, "values_all_int16": 1, "second_passes": 4, "shank_files_opened": 8, "limited_precision_durations": 5, "compressed_originals": 3, "resplits": 4, "stale_metadata_in_output_folder": 5}
+REQUIRED = {"shank_files_compared": 8, "reconstructions": 3, "meta_fields_compared": 100, "values_all_int16": 1, "second_passes": 4, "shank_files_opened": 8, "limited_precision_durations": 5, "compressed_originals": 3, "resplits": 4, "stale_metadata_in_output_folder": 5, "runs_over_leftover_shank_folders": 1}
 CASE_TIMEOUT = 120.0
 MAX_PROCS = 12
 
@@ -85,12 +85,43 @@ def run_case(case):
         orig_bytes = b.read_bytes()
         res.count("compressed_originals")
     cols = np2.shank_columns(rec)
+    # ------------------------------------------------------------------ leftovers of an earlier trial (round 19)
+    # a trial split of the first shank only (init_params(nshank=[0])) ran earlier on another take of the recording: its folder is still there with
+    # other samples in it, the folders of the other shanks are not. An ordinary run either refuses (status 0, nothing touched) or ends with every
+    # shank file complete - it never reports success over a stale file.
+    leftovers = i % 3 == 1 and not case.get("long") and len(cols) >= 2 and 0 in cols and not orig_cbin
+    stale_bytes = None
+    if leftovers:
+        try:
+            conv0 = neuropixel.NP2Converter(b, post_check=False, compress=False, delete_original=False)
+            conv0.init_params(nwindow=window, nshank=[0])
+            conv0.process()
+            conv0.sr.close()
+            f0 = d / "probe00a" / (np2.NAME + ".bin")
+            stale = (raw[: max(60, ns // 2), cols[0]].astype(np.int32) // 2).astype(np.int16)
+            f0.write_bytes(stale.tobytes())
+            stale_bytes = f0.read_bytes()
+            label += " leftover-first-shank-folder"
+            res.count("runs_over_leftover_shank_folders")
+        except Exception as e:
+            res.exception("split:leftovers:exception", e, label)
+            return _done(res, label, gain, mode, nsh, allv)
     # ------------------------------------------------------------------ split
     try:
         conv = neuropixel.NP2Converter(b, post_check=post_check, compress=compress, delete_original=False)
         if window is not None:
             conv.init_params(nwindow=window)
         status = conv.process()
+        if leftovers and status == 0:
+            # refused: nothing may have been touched or added
+            f0 = d / "probe00a" / (np2.NAME + ".bin")
+            res.check(f0.exists() and f0.read_bytes() == stale_bytes, "split:leftovers:refusal-touched-files", f"{label}: process() returned 0 but changed the earlier shank file")
+            res.count("refusals_over_leftovers")
+            conv.sr.close()
+            conv = neuropixel.NP2Converter(b, post_check=post_check, compress=compress, delete_original=False)
+            if window is not None:
+                conv.init_params(nwindow=window)
+            status = conv.process(overwrite=True)
         if second:
             # one converter object, a second forced pass (with or without init_params in between): judged on the files of the LAST pass
             if second == "init+overwrite":
